@@ -1,9 +1,17 @@
 """C17 — curvilinear abscissa and speed features match their geometric definitions
 (tracklib/algo/cinematics.py computeAbsCurv / estimate_speed, algo/analytics.py ds / speed,
-core/operators.py Integrator)."""
-import math, calendar, itertools
+core/operators.py Integrator).
+
+Two kinds of cases:
+* single-track cases (`kind` enum / lattice-* / float* / pre-* / single): one fresh track, optional features present
+  beforehand, an op word over {a = computeAbsCurv, s = estimate_speed}; model `Model/Cinematics.lean` (driver `C17.run`);
+* world histories (`hist` present; generators and the oracle's bookkeeping in c17world.py): observations shared between
+  tracks, every entry point, in-place edits of positions and timestamp fields; model `Model/CinematicsTab.lean`
+  (driver `C17.world`). The oracle recomputes from the CURRENT positions and stamps after every operation."""
+import math, calendar, itertools, time as _time
 from fractions import Fraction
-from engine import Prop, fbits, bitsf, ratstr, parse_rat, tok_list, untok, close
+from engine import Prop, fbits, bitsf, ratstr, parse_rat, tok_list, untok, close, err_kind
+from props import c17world as W
 
 NAN = float("nan")
 
@@ -16,6 +24,10 @@ def ulp(x):
     return math.ulp(abs(float(x)))
 
 
+def json_short(op):
+    return "[" + ",".join(str(x) if not isinstance(x, list) else "[..]" for x in op) + "]"
+
+
 class P(Prop):
     id = "C17"
     design_ref = "DESIGN.md section 5, C17"
@@ -26,35 +38,66 @@ class P(Prop):
         ("TracklibVerif.Props.C17", "TV.C17.pure", "computeAbsCurv / estimate_speed leave positions, timestamps and every other feature unchanged"),
         ("TracklibVerif.Props.C17", "TV.C17.only_adds", "on a fresh track the feature table only gains one appended column (abs_curv resp. speed); the temporary ds is removed"),
         ("TracklibVerif.Props.C17", "TV.C17.idempotent", "a second computeAbsCurv / estimate_speed returns the same column and leaves the track as it was"),
+        ("TracklibVerif.Props.C17", "TV.C17.abscurv_table", "on ANY feature table satisfying the laws (Track API: create appends a slot, reads/writes/deletes go through the name's index): computeAbsCurv = addAnalyticalFeature(ds) + Integrator + remove(ds) + read terminates, returns [absc 0..] of the CURRENT positions, abs_curv reads it afterwards, every other name, the coordinates, the times and the invariant are unchanged"),
+        ("TracklibVerif.Props.C17", "TV.C17.abscurv_table_again", "on a lawful table that lists abs_curv, computeAbsCurv returns the listed column and every name / coordinate reads as before (temporary ds created and removed)"),
+        ("TracklibVerif.Props.C17", "TV.C17.speed_table", "on any lawful table of n>=2 fixes without speed: estimate_speed returns the speed column of the CURRENT positions and times, speed reads it afterwards, nothing else changes"),
+        ("TracklibVerif.Props.C17", "TV.C17.speed_table_again", "on a lawful table that lists speed, estimate_speed returns the listed column and does not change the state"),
+        ("TracklibVerif.Props.C17", "TV.C17.speedCol_def", "the entries of the speed column: fixes (1,0) / (n-1,n-2) / (i+1,i-1), NaN iff the elapsed time is zero, else distance / elapsed"),
+        ("TracklibVerif.Props.C17", "TV.C17.abscurv_monotone_rounded", "abs_curv never decreases WITHOUT exact arithmetic: any preorder, only 0 <= sqrt x and (0 <= d -> a <= a + d) — the two facts of correctly rounded IEEE addition / sqrt — are assumed"),
+        ("TracklibVerif.Props.C17", "TV.C17.curvabs_table", "computeCurvAbsBetweenTwoPoints on a lawful table only reads and (exact arithmetic) returns absc (n-1), the value abs_curv ends at"),
+        ("TracklibVerif.Props.C17", "TV.C17.spec_table_lawful", "C01's specification table (name -> column) satisfies the laws of a feature table"),
+        ("TracklibVerif.Props.C17", "TV.C17.shared_world_lawful", "the world of Obs OBJECTS shared between tracks (per-object features list, per-track name->index dict) satisfies the laws for the track in focus whenever its objects carry AT LEAST as many slots as its dict lists (extra slots from other tracks allowed)"),
+        ("TracklibVerif.Props.C17", "TV.C17.abscurv_shared", "computeAbsCurv(track k) as one step of a history on shared observations: returns [absc 0..] of the current positions whatever foreign slots the objects carry; track k reads it under abs_curv"),
+        ("TracklibVerif.Props.C17", "TV.C17.speed_shared", "estimate_speed(track k) on shared observations: speed column of the current positions and of the absolute times of the CURRENT timestamp fields"),
+        ("TracklibVerif.Props.C17", "TV.C17.positions_and_stamps_unchanged", "for EVERY world (aligned or not, also on exceptions) and every feature operation / entry point: position and stamp of every observation object and the reference list of every track are unchanged"),
     ]
     partial = []
-    open_statements = ["IEEE rounding of sqrt / + / division is outside the theorems (ordered-field statement); sampled by the transfer check with rel. tolerance 1e-9"]
-    modelled = ("algo/analytics.py ds, speed; core/obs_coords.py ENUCoords.distance2DTo/__sub__/norm2D; core/operators.py Integrator.execute; "
-                "algo/cinematics.py computeAbsCurv, estimate_speed; core/track.py addAnalyticalFeature (IndexError -> NaN); the feature table is "
-                "abstracted to an ordered name -> column map (its alignment is C01)")
-    trusted = ["ObsTime.toAbsTime() values are computed by the harness as sec + ms/1000.0 (C03 covers the calendar conversion)",
-               "math.sqrt / x**2 are taken as correctly rounded sqrt and x*x"]
+    open_statements = ["IEEE rounding of sqrt / + / division is outside the theorems (ordered-field statement; the recurrences abscurv_prefix / abscurv_table / speed_table hold for any scalar type, so also for the Float operations in Python's order); sampled by the transfer check with rel. tolerance 1e-9",
+                       "the laws are proved for the specification table and for the world of shared observations; for C01's dict-and-rows table `St` of a single track they follow from C01's simulation theorems and are not restated here",
+                       "Track.length (3D), isSorted, duration are modelled (lengthT, isSortedT, durationT) and covered by positions_and_stamps_unchanged; their VALUES are checked by correspondence (and length by the oracle on tracks of constant height), not by a theorem"]
+    modelled = ("algo/analytics.py ds, speed; core/obs_coords.py ENUCoords.distance2DTo/distanceTo/__sub__/norm2D/norm; core/operators.py Integrator.execute, "
+                "Differentiator.execute; core/utils.py addListToAF; algo/cinematics.py computeAbsCurv, estimate_speed, computeCurvAbsBetweenTwoPoints; "
+                "core/track.py addAnalyticalFeature (IndexError -> NaN), createAnalyticalFeature (append + index len(dico)), removeAnalyticalFeature, "
+                "get/setObsAnalyticalFeature, getAnalyticalFeature, __setitem__(name, list), estimate_speed, getAbsCurv/getSpeed, length, isSorted, duration, getT, "
+                "__add__, extract, __getitem__(slice), copy (deep copy with memo); core/obs_time.py toAbsTime / __sub__ from the CURRENT fields (C03's ObsTimeG.toAbsG); "
+                "two models: Model/Cinematics.lean (a track = lists + name->column map) and Model/CinematicsTab.lean (the programs on the Track API of C01's "
+                "Model/Features.lean, instantiated at the specification table and at a WORLD of observation objects shared between tracks)")
+    trusted = ["math.sqrt / x**2 are taken as correctly rounded sqrt and x*x",
+               "single-track stream (`run`): ObsTime.toAbsTime() values are computed by the harness as sec + ms/1000.0; world stream: the model computes them from the timestamp fields (C03's toAbsG)"]
     rule = ("exhaustive: all tracks of 2..4 (quick) / 2..5 (thorough) fixes whose legs are k*(3,4), k in {-1,0,1,2}, with dt in {0,1,2} s, op word 'asas'; "
-            "random: exact lattice tracks (collinear 3-4-5 steps, scaled 3x4 rectangle corners, axis steps; integer seconds) run at Rat, "
-            "float tracks (short 1e-6 / long 1e7 legs, repeated positions and timestamps, optional millisecond stamps) run at Float with bit patterns, "
-            "and tracks with features present beforehand (other names, stale abs_curv / speed, user ds); op words over {a = computeAbsCurv, s = estimate_speed} "
-            "with repetitions. non-trivial = at least 2 fixes and at least one non-zero leg")
+            "all histories of 2 (quick) / 3 (thorough) operations over {computeAbsCurv, estimate_speed on a track and on a section sharing its observations, "
+            "addAnalyticalFeature(speed), remove abs_curv / speed, in-place edit of a position / of a timestamp field, duration()} on a 4-fix pool; "
+            "random single-track cases: exact lattice tracks at Rat, float tracks (short 1e-6 / long 1e7 legs, repeated positions and timestamps, millisecond stamps) at Float, "
+            "tracks with features present beforehand, op words over {a, s}; "
+            "random WORLD histories (c17world.py): a pool of 3..8 observations, tracks made by +, extract, slicing (shared Obs objects) and copy(), every entry point "
+            "(computeAbsCurv, estimate_speed function / method, addAnalyticalFeature(speed | ds), operate(INTEGRATOR | DIFFERENTIATOR), length, "
+            "computeCurvAbsBetweenTwoPoints, getAbsCurv / getSpeed / track[name], removeAnalyticalFeature, track[name] = list, isSorted / duration / getT), in-place edits of "
+            "positions (setX / setObsAnalyticalFeature / attribute) and of timestamp fields (sec, min, ms), directed templates (sum of a computed and a fresh segment, section then "
+            "parent, compute-edit-remove-recompute, time evaluation then field edit then speed, all orders, deep copy) plus free random histories; the oracle keeps its own "
+            "bookkeeping and checks every fresh (or still valid) computation against the CURRENT positions and stamps. non-trivial = at least 2 fixes, one non-zero leg"
+            " (world: and at least one computation)")
 
     def setup(self):
         from tracklib.core.obs import Obs
         from tracklib.core.obs_coords import ENUCoords
         from tracklib.core.obs_time import ObsTime
         from tracklib.core.track import Track
-        from tracklib.algo.cinematics import computeAbsCurv, estimate_speed
+        from tracklib.algo.cinematics import computeAbsCurv, estimate_speed, computeCurvAbsBetweenTwoPoints
+        from tracklib.algo.analytics import ds, speed
+        from tracklib.core.operators import Operator
         self.Obs, self.ENU, self.T, self.Track = Obs, ENUCoords, ObsTime, Track
         self.computeAbsCurv, self.estimate_speed = computeAbsCurv, estimate_speed
+        self.curvAbsBetween, self.ds, self.speed, self.Operator = computeCurvAbsBetweenTwoPoints, ds, speed, Operator
 
     # ---------------------------------------------------------------- generators
     OPS = ["a", "s", "as", "sa", "aa", "ss", "asas", "aas", "ssa", "saas"]
 
     def exhaustive_scopes(self, tier):
         n = 5 if tier == "thorough" else 4
-        return ["all tracks of 2..%d fixes with legs k*(3,4), k in {-1,0,1,2} and elapsed times in {0,1,2} s per leg (op word asas)" % n]
+        return ["all tracks of 2..%d fixes with legs k*(3,4), k in {-1,0,1,2} and elapsed times in {0,1,2} s per leg (op word asas)" % n,
+                "all histories of %d operations over {computeAbsCurv / estimate_speed on a 4-fix track and on a 2-fix section sharing its observations, "
+                "addAnalyticalFeature(speed), remove abs_curv, remove speed, in-place edit of a position, in-place edit of a timestamp field, duration()}"
+                % (3 if tier == "thorough" else 2)]
 
     def cases(self, rng, tier):
         out = []
@@ -75,6 +118,12 @@ class P(Prop):
             out.append(self.floaty(rng))
         for _ in range(nrand // 3):
             out.append(self.prefeat(rng))
+        # histories on observations shared between tracks, every entry point, in-place edits (c17world.py)
+        out += W.enum_world(2)
+        if tier == "thorough":
+            out += W.enum_world(3)
+        for _ in range(nrand * 2):
+            out.append(W.gen_world(rng))
         # single-fix tracks (outside the statement: correspondence only)
         for _ in range(20):
             out.append({"kind": "single", "mode": "q", "pos": [[rng.randrange(-5, 5), rng.randrange(-5, 5), 1]],
@@ -144,13 +193,13 @@ class P(Prop):
         p = case["pos"]
         return [math.hypot(p[i + 1][0] - p[i][0], p[i + 1][1] - p[i][1]) for i in range(len(p) - 1)]
 
-    def describe(self, case):
+    def describe1(self, case):
         n = len(case["pos"])
         t = case["tms"]
         return {"kind": case["kind"], "n": n, "ops": case["ops"],
                 "repeated_pos": any(l == 0 for l in self.legs(case)), "repeated_time": any(t[i] == t[i + 1] for i in range(n - 1))}
 
-    def nontrivial(self, case):
+    def nontrivial1(self, case):
         return len(case["pos"]) >= 2 and any(l > 0 for l in self.legs(case))
 
     # ---------------------------------------------------------------- implementation
@@ -166,7 +215,7 @@ class P(Prop):
                 tr.setObsAnalyticalFeature(name, i, NAN if v == "nan" else v)
         return tr
 
-    def impl(self, case):
+    def impl1(self, case):
         tr = self.build(case)
         rets = []
         for op in case["ops"]:
@@ -186,7 +235,7 @@ class P(Prop):
     def abs_t(self, tms):
         return (tms // 1000) + (tms % 1000) / 1000.0 if tms % 1000 else tms // 1000
 
-    def requests(self, case):
+    def requests1(self, case):
         q = case["mode"] == "q"
         enc = (lambda v: "nan" if v == "nan" else ratstr(v)) if q else (lambda v: "nan" if v == "nan" else fbits(v))
         xs = tok_list(enc(p[0]) for p in case["pos"])
@@ -198,7 +247,7 @@ class P(Prop):
         feats = tok_list((nm + ":" + tok_list(enc(v) for v in col) for nm, col in case["feats"]), sep=";")
         return ["C17.run %s %s %s %s %s %s" % (case["mode"], xs, ys, ts, feats, case["ops"])]
 
-    def decode(self, case, replies):
+    def decode1(self, case, replies):
         r = replies[0]
         if r == "bad-request":
             raise ValueError("bad-request")
@@ -215,7 +264,7 @@ class P(Prop):
                 "t": ts, "tms": list(case["tms"]), "n": len(xs)}
 
     # ---------------------------------------------------------------- oracle (transfer)
-    def spec(self, case, out):
+    def spec1(self, case, out):
         if "err" in out:
             return "raised %s (%s)" % (out["err"], out.get("detail"))
         pos, tms, n = case["pos"], case["tms"], len(case["pos"])
@@ -280,7 +329,7 @@ class P(Prop):
         return None
 
     # ---------------------------------------------------------------- shrinking / search
-    def shrink(self, case):
+    def shrink1(self, case):
         n = len(case["pos"])
         if len(case["ops"]) > 1:
             for i in range(len(case["ops"])):
@@ -299,5 +348,431 @@ class P(Prop):
             yield dict(case, tms=[t - t0 for t in case["tms"]])
 
     def mutate(self, case, rng):
-        for _ in range(20):
+        for _ in range(10):
             yield self.lattice(rng)
+        for _ in range(20):
+            yield W.gen_world(rng)
+
+    def search_cases(self, rng):
+        """failing-input search after a broken correspondence: three more draws of the quick generators (the thorough
+        generator enumerates 11 000 three-operation histories and 80 000 random ones: too slow for the every-change run)"""
+        out = []
+        for _ in range(3):
+            out += [c for c in self.cases(rng, "quick") if c.get("kind") not in ("enum", "world-enum")]
+        return out
+
+    # ---------------------------------------------------------------- dispatch: single-track cases / world histories
+    def impl(self, case):
+        return self.w_impl(case) if "hist" in case else self.impl1(case)
+
+    def requests(self, case):
+        return self.w_requests(case) if "hist" in case else self.requests1(case)
+
+    def decode(self, case, replies):
+        return self.w_decode(case, replies) if "hist" in case else self.decode1(case, replies)
+
+    def spec(self, case, out):
+        return self.w_spec(case, out) if "hist" in case else self.spec1(case, out)
+
+    def shrink(self, case):
+        return self.w_shrink(case) if "hist" in case else self.shrink1(case)
+
+    def describe(self, case):
+        return self.w_describe(case) if "hist" in case else self.describe1(case)
+
+    def nontrivial(self, case):
+        return self.w_nontrivial(case) if "hist" in case else self.nontrivial1(case)
+
+    # ================================================================ world histories (c17world.py)
+    # ---------------------------------------------------------------- implementation
+    def w_impl(self, case):
+        if not W.valid_case(case):
+            return {"invalid": True}
+        H = []
+        for p, tms in zip(case["pos"], case["tms"]):
+            t = self.T.readUnixTime(tms // 1000)
+            t.ms = tms % 1000
+            H.append(self.Obs(self.ENU(p[0], p[1], p[2]), t))
+        tracks = [self.Track(list(H), 1)]
+        ops = []
+        for op in case["hist"]:
+            k = op[1]
+            pre = self.w_table(tracks[k])
+            try:
+                rec = {"r": self.w_apply(H, tracks, op)}
+            except BaseException as e:
+                if isinstance(e, KeyboardInterrupt):
+                    raise
+                rec = {"err": err_kind(e)}
+            rec["pre"], rec["post"], rec["heap"] = pre, self.w_table(tracks[k]), self.w_heap(H)
+            ops.append(rec)
+        final = []
+        for tr in tracks:
+            tab = self.w_table(tr)
+            tab["ids"] = self.w_ids(H, tr)
+            final.append(tab)
+        return {"ops": ops, "tracks": final}
+
+    def w_ids(self, H, tr):
+        """heap numbers of the observation objects of a track; an object not seen before (a copy) gets the next number"""
+        where = {id(o): h for h, o in enumerate(H)}
+        out = []
+        for o in tr.getObsList():
+            if id(o) not in where:
+                where[id(o)] = len(H)
+                H.append(o)
+            out.append(where[id(o)])
+        return out
+
+    def w_table(self, tr):
+        """names and columns of a track, read without going through the library (an observer must not have effects)"""
+        dico = tr._Track__analyticalFeaturesDico
+        names, cols = list(dico.keys()), []
+        for nm in names:
+            idx = dico[nm]
+            try:
+                cols.append([o.features[idx] for o in tr.getObsList()])
+            except IndexError:
+                cols.append("err:index")
+        return {"names": names, "cols": cols}
+
+    def w_heap(self, H):
+        out = []
+        for o in H:
+            s, c = o.timestamp, o.position
+            out.append({"xyz": [c.E, c.N, c.U], "t": [s.year, s.month, s.day, s.hour, s.min, s.sec, s.ms], "nf": len(o.features)})
+        return out
+
+    def w_apply(self, H, tracks, op):
+        kind, tr = op[0], tracks[op[1]]
+        if kind == "a":
+            return list(self.computeAbsCurv(tr))
+        if kind == "s":
+            return list(self.estimate_speed(tr))
+        if kind == "S":
+            return list(tr.estimate_speed())
+        if kind == "f":
+            return list(tr.addAnalyticalFeature(self.speed))
+        if kind == "d":
+            return list(tr.addAnalyticalFeature(self.ds, "ds"))
+        if kind == "I":
+            return list(tr.operate(self.Operator.INTEGRATOR, "ds", "abs_curv"))
+        if kind == "E":
+            return tr.operate("abs_curv=I{ds}")
+        if kind == "D":
+            return list(tr.operate(self.Operator.DIFFERENTIATOR, "abs_curv", "dd"))
+        if kind == "L":
+            return tr.length()
+        if kind == "c":
+            return self.curvAbsBetween(tr)
+        if kind == "g":
+            nm = op[2]
+            return list(tr.getAbsCurv() if nm == "abs_curv" else tr.getSpeed() if nm == "speed" else tr[nm])
+        if kind == "rm":
+            tr.removeAnalyticalFeature(op[2])
+            return None
+        if kind == "w":
+            tr[op[2]] = [NAN if v == "nan" else v for v in op[3]]
+            return None
+        if kind == "q":
+            return tr.isSorted() if op[2] == "sorted" else tr.duration() if op[2] == "dur" else list(tr.getT())
+        if kind == "ex":
+            o, c, v, form = tr.getObs(op[2]), op[3], op[4], (op[5] if len(op) > 5 else 0)
+            if form == 1:
+                tr.setObsAnalyticalFeature(c, op[2], v)
+            elif form == 2:
+                setattr(o.position, {"x": "E", "y": "N", "z": "U"}[c], v)
+            elif form == 3:               # a new coordinate object instead of an in-place change
+                p = o.position
+                o.position = self.ENU(v if c == "x" else p.E, v if c == "y" else p.N, v if c == "z" else p.U)
+            else:
+                {"x": o.position.setX, "y": o.position.setY, "z": o.position.setZ}[c](v)
+            return None
+        if kind == "et":
+            setattr(tr.getObs(op[2]).timestamp, op[3], op[4])
+            return None
+        if kind == "add":
+            new = tr + tracks[op[2]]
+        elif kind == "ext":
+            new = tr.extract(op[2], op[3])
+        elif kind == "sl":
+            new = tr[op[2]:op[3]]
+        elif kind == "cp":
+            new = tr.copy()
+        else:
+            raise ValueError(kind)
+        tracks.append(new)
+        return self.w_ids(H, new)
+
+    # ---------------------------------------------------------------- model
+    def w_requests(self, case):
+        if not W.valid_case(case):
+            return []
+        q = case["mode"] == "q"
+        enc = (lambda v: "nan" if v == "nan" else ratstr(v)) if q else (lambda v: "nan" if v == "nan" else fbits(v))
+        pool = []
+        for p, tms in zip(case["pos"], case["tms"]):
+            f = W.fields_of(tms)
+            pool.append(",".join([enc(p[0]), enc(p[1]), enc(p[2])] + [str(f[k]) for k in W.FIELDS]))
+        ops = []
+        for op in case["hist"]:
+            kind = op[0]
+            if kind in ("a", "f", "d", "I", "E", "D", "L", "c", "cp"):
+                ops.append("%s:%d" % (kind, op[1]))
+            elif kind in ("s", "S"):
+                ops.append("s:%d" % op[1])
+            elif kind in ("g", "rm", "q"):
+                ops.append("%s:%d:%s" % (kind, op[1], op[2]))
+            elif kind == "w":
+                ops.append("w:%d:%s:%s" % (op[1], op[2], tok_list(enc(v) for v in op[3])))
+            elif kind == "add":
+                ops.append("add:%d:%d" % (op[1], op[2]))
+            elif kind in ("ext", "sl"):
+                ops.append("%s:%d:%d:%d" % (kind, op[1], op[2], op[3]))
+            elif kind == "ex":
+                ops.append("ex:%d:%d:%s:%s" % (op[1], op[2], op[3], enc(op[4])))
+            elif kind == "et":
+                ops.append("et:%d:%d:%s:%d" % (op[1], op[2], op[3], op[4]))
+        return ["C17.world %s %s %s" % (case["mode"], tok_list(pool, ";"), tok_list(ops, ";"))]
+
+    def w_decode(self, case, replies):
+        if not replies:
+            return {"invalid": True}
+        r = replies[0]
+        if r == "bad-request":
+            raise ValueError("bad-request")
+        q = case["mode"] == "q"
+        dec = (lambda w: NAN if w == "nan" else float(parse_rat(w))) if q else bitsf
+
+        def table(names, cols):
+            names = untok(names)
+            return {"names": names, "cols": [c if c.startswith("err:") else [dec(w) for w in untok(c)] for c in (untok(cols, ";") if names else [])]}
+
+        blocks = r.split(" ")
+        nops = len(case["hist"])
+        ops = []
+        for b in blocks[:nops]:
+            res, n0, c0, n1, c1, heap = b.split("~")
+            if res.startswith("err:"):
+                rec = {"err": res}
+            elif res == "-":
+                rec = {"r": None}
+            elif res[0] == "n":
+                rec = {"r": dec(res[1:])}
+            elif res[0] == "c":
+                rec = {"r": [dec(w) for w in untok(res[1:])]}
+            elif res[0] == "b":
+                rec = {"r": res[1:] == "1"}
+            else:
+                rec = {"r": [int(w) for w in untok(res[1:])]}
+            rec["pre"], rec["post"] = table(n0, c0), table(n1, c1)
+            hp = []
+            for o in untok(heap, ";"):
+                w = o.split(",")
+                hp.append({"xyz": [dec(w[0]), dec(w[1]), dec(w[2])], "t": [int(x) for x in w[3:10]], "nf": int(w[10])})
+            rec["heap"] = hp
+            ops.append(rec)
+        tracks = []
+        for b in blocks[nops:]:
+            ids, names, cols = b[1:].split("~")
+            t = table(names, cols)
+            t["ids"] = [int(w) for w in untok(ids)]
+            tracks.append(t)
+        return {"ops": ops, "tracks": tracks}
+
+    # ---------------------------------------------------------------- oracle on histories
+    def w_legs(self, sym, ids):
+        return [math.hypot(sym.pos[ids[i + 1]][0] - sym.pos[ids[i]][0], sym.pos[ids[i + 1]][1] - sym.pos[ids[i]][1]) for i in range(len(ids) - 1)]
+
+    def chk_abscurv(self, s, legs):
+        n = len(legs) + 1
+        if not isinstance(s, list) or len(s) != n:
+            return "abs_curv has %s values for %d fixes" % (len(s) if isinstance(s, list) else s, n)
+        if any(isnan(v) for v in s):
+            return "abs_curv contains NaN: %s" % s
+        if s[0] != 0:
+            return "abs_curv starts at %r, not 0" % (s[0],)
+        total = math.fsum(legs)
+        for i in range(n - 1):
+            inc = s[i + 1] - s[i]
+            if inc < 0:
+                return "abs_curv decreases at fix %d: %r -> %r" % (i + 1, s[i], s[i + 1])
+            tol = 1e-9 * max(legs[i], abs(s[i + 1])) + 1e-300
+            if abs(inc - legs[i]) > tol:
+                return "abs_curv grows by %r between fixes %d and %d, planimetric distance is %r" % (inc, i, i + 1, legs[i])
+        if abs(s[n - 1] - total) > 1e-9 * max(total, 1e-300):
+            return "abs_curv ends at %r, planimetric length is %r" % (s[n - 1], total)
+        return None
+
+    def chk_ds(self, d, legs):
+        n = len(legs) + 1
+        if not isinstance(d, list) or len(d) != n:
+            return "ds has %s values for %d fixes" % (len(d) if isinstance(d, list) else d, n)
+        if d[0] != 0:
+            return "ds[0] = %r, not 0" % (d[0],)
+        for i in range(n - 1):
+            if isnan(d[i + 1]) or abs(d[i + 1] - legs[i]) > 1e-9 * max(legs[i], 1e-300):
+                return "ds[%d] = %r, planimetric distance to the previous fix is %r" % (i + 1, d[i + 1], legs[i])
+        return None
+
+    def chk_speed(self, v, pos, tms):
+        n = len(pos)
+        if not isinstance(v, list) or len(v) != n:
+            return "speed has %s values for %d fixes" % (len(v) if isinstance(v, list) else v, n)
+        tmax = max(abs(t) for t in tms) / 1000.0
+        for i in range(n):
+            a, b = (1, 0) if i == 0 else (n - 1, n - 2) if i == n - 1 else (i + 1, i - 1)
+            el = Fraction(tms[a] - tms[b], 1000)
+            if el == 0:
+                if not isnan(v[i]):
+                    return "speed[%d] = %r although no time elapsed between fixes %d and %d (NaN expected)" % (i, v[i], b, a)
+                continue
+            d = math.hypot(pos[a][0] - pos[b][0], pos[a][1] - pos[b][1])
+            want = d / float(el)
+            rel = 1e-9 + (4 * ulp(tmax) / float(el) if any(t % 1000 for t in tms) else 0.0)
+            if isnan(v[i]) or abs(v[i] - want) > rel * max(abs(want), 1e-300):
+                return ("speed[%d] = %r, expected distance(fix %d, fix %d) / elapsed = %r / %s = %r"
+                        % (i, v[i], b, a, d, float(el), want))
+        return None
+
+    def w_spec(self, case, out):
+        if "err" in out:
+            return "raised %s (%s)" % (out["err"], out.get("detail"))
+        if out.get("invalid"):
+            return None
+        sym = W.Sym(case)
+        for j, (op, rec) in enumerate(zip(case["hist"], out["ops"])):
+            msg = self.w_check(sym, op, rec)
+            if msg:
+                return "operation %d %s: %s" % (j, json_short(op), msg)
+        return None
+
+    def w_check(self, sym, op, rec):
+        kind, k = op[0], op[1]
+        if sym.lost:
+            return None
+        ok = sym.ok(k)
+        mono = sym.monotone(k)
+        info = sym.apply(op)                 # bookkeeping: positions / stamps after edits, names, slots, validity
+        ids = sym.tracks[k]["ids"]
+        n = len(ids)
+        heap = rec["heap"]
+        if kind in W.NEW_OPS:
+            # which objects the new track references is the implementation's business (sharing or copying is not part of
+            # this property): adopt its numbering, provided the fixes are the designated ones; otherwise the oracle no
+            # longer knows which object is which and stops
+            if "err" in rec or not isinstance(rec.get("r"), list) or len(rec["r"]) != len(sym.tracks[-1]["ids"]):
+                sym.lost = True
+            else:
+                want = sym.tracks[-1]["ids"]
+                for j, h in enumerate(rec["r"]):
+                    if h >= len(sym.pos):
+                        if h != len(sym.pos) or h >= len(heap):
+                            sym.lost = True
+                            break
+                        sym.pos.append(list(sym.pos[want[j]]))
+                        sym.fld.append(dict(sym.fld[want[j]]))
+                        sym.slots.append(heap[h]["nf"])
+                    elif sym.pos[h] != sym.pos[want[j]] or sym.fld[h] != sym.fld[want[j]]:
+                        sym.lost = True
+                        break
+                if not sym.lost:
+                    sym.tracks[-1]["ids"] = list(rec["r"])
+        if sym.lost:
+            return None
+        # computing, reading, deriving tracks: positions and timestamps of EVERY observation stay what the history made them
+        if len(heap) < len(sym.pos):
+            return "%d observations exist, %d expected" % (len(heap), len(sym.pos))
+        for h, o in enumerate(heap[:len(sym.pos)]):
+            if not close(o["xyz"], sym.pos[h], 0.0, 0.0):
+                return "position of observation %d is %s, expected %s" % (h, o["xyz"], sym.pos[h])
+            if o["t"] != [sym.fld[h][f] for f in W.FIELDS]:
+                return "timestamp of observation %d is %s, expected %s" % (h, o["t"], [sym.fld[h][f] for f in W.FIELDS])
+        if kind in W.NEW_OPS or kind in W.EDIT_OPS:
+            return None
+        if not ok:
+            if "err" in rec:
+                sym.tainted = True          # partial effects of an exception on a misaligned table: outside the statement from here on
+            return None
+        if "err" in rec:
+            return "raised %s on a track whose feature table is aligned" % rec["err"]
+        # the other features of the track are left as they were
+        touched = set(W.TOUCHED.get(kind, ())) | ({op[2]} if kind in ("rm", "w") else set())
+        pre = dict(zip(rec["pre"]["names"], rec["pre"]["cols"]))
+        post = dict(zip(rec["post"]["names"], rec["post"]["cols"]))
+        for nm, col in pre.items():
+            if nm in touched:
+                continue
+            if nm not in post or not close(post[nm], col, 0.0, 0.0):
+                return "feature %s of the track changed: %s -> %s" % (nm, col, post.get(nm))
+        r = rec["r"]
+        stored = info.get("stored")
+        if info.get("void"):
+            if r is not None or stored not in post:
+                return "returned %s, track['%s'] reads %s" % (r, stored, post.get(stored))
+            r = post[stored]              # the operation returns nothing: what it stored is what is checked
+        elif stored is not None and (stored not in post or not close(post[stored], r, 0.0, 0.0)):
+            return "returned %s but track['%s'] reads %s" % (r, stored, post.get(stored))
+        chk = info["check"]
+        if chk is None or n < 2:
+            return None
+        pos = [sym.pos[h] for h in ids]
+        legs = self.w_legs(sym, ids)
+        if chk == "abs_curv":
+            return self.chk_abscurv(r, legs)
+        if chk == "ds":
+            return self.chk_ds(r, legs)
+        if chk == "speed":
+            return self.chk_speed(r, pos, [sym.tms(h) for h in ids]) if mono else None
+        if chk == "curvabs":
+            total = math.fsum(legs)
+            if isnan(r) or abs(r - total) > 1e-9 * max(total, 1e-300):
+                return "computeCurvAbsBetweenTwoPoints = %r, planimetric length is %r" % (r, total)
+        if chk == "length" and all(p[2] == pos[0][2] for p in pos):
+            total = math.fsum(legs)
+            if isnan(r) or abs(r - total) > 1e-9 * max(total, 1e-300):
+                return "length() = %r on a track of constant height, planimetric length is %r" % (r, total)
+        return None
+
+    # ---------------------------------------------------------------- known-finding classes
+    def classify(self, case, impl_out, msg):
+        """`list-init-on-shared-obs`: `track.operate("abs_curv=I{ds}")` (expression front end: the assignment goes through
+        createAnalyticalFeature(name, LIST), which APPENDS the values instead of writing the index it registers) on a track
+        some of whose Obs objects carry a slot left by a track sharing them: abs_curv then reads the stale slot.
+        The generators do not produce this situation; the oracle is not relaxed for it."""
+        if "hist" in case and msg and msg.startswith("operation "):
+            j = W.list_init_on_foreign_slots(case)
+            if j is not None and msg.startswith("operation %d " % j):
+                return "list-init-on-shared-obs"
+        return None
+
+    # ---------------------------------------------------------------- shrinking / tags
+    def w_shrink(self, case):
+        hist = case["hist"]
+        known = W.list_init_on_foreign_slots(case) is not None
+        for i in range(len(hist) - 1, -1, -1):
+            c = dict(case, hist=hist[:i] + hist[i + 1:])
+            if W.valid_case(c) and (known or W.list_init_on_foreign_slots(c) is None):
+                yield c
+        t0 = min(case["tms"])
+        base = t0 - t0 % 3600000
+        if base:
+            yield dict(case, tms=[t - base for t in case["tms"]])
+
+    def w_describe(self, case):
+        kinds = [op[0] for op in case["hist"]]
+        return {"kind": case["kind"] + "-" + case["mode"], "n": len(case["pos"]), "len": len(kinds),
+                "shared": any(k in ("add", "ext", "sl") for k in kinds), "edits": any(k in ("ex", "et") for k in kinds),
+                "ops": "".join(sorted(set(k[0] for k in kinds)))}
+
+    def w_nontrivial(self, case):
+        p = case["pos"]
+        return len(p) >= 2 and any(p[i][:2] != p[i + 1][:2] for i in range(len(p) - 1)) and any(op[0] in "asSfdIE" for op in case["hist"])
+
+
+# ---- tie to the source by translation (tools/py2lean.py -> lean/TracklibVerif/Gen/ObsCoords.lean, regenerated on every run)
+P.tie_modules = ["TracklibVerif.Tie.C17"]
+P.theorems = P.theorems + [
+    ("TracklibVerif.Tie.C17", "TV.Tie.C17.tie_sub", "the Lean translation of the CURRENT source of ENUCoords.__sub__ is the component-wise difference"),
+    ("TracklibVerif.Tie.C17", "TV.Tie.C17.tie_distance2DTo", "the translation of the CURRENT source of ENUCoords.distance2DTo (with __sub__, norm2D) equals the model's dist2D on all arguments (x ** 2 = x * x)"),
+]
